@@ -104,10 +104,18 @@ def retentions(layout):
     return [s * n for s, n in layout]
 
 
+LATE_CLOCKS = True
+
+
 def clock_in_domain(rnd, layout):
     """A clock value with 2*maxRet <= now and now + 2*maxRet < 2^31 (domain D)."""
     R = retentions(layout)[-1]
     lo, hi = 2 * R, TMAX - 2 * R - 1
+    if LATE_CLOCKS and rnd.chance(0.12):
+        # beyond the domain of the theorems (2038-2106): Timestamp is a uint32, differences of times
+        # that lie within one retention of each other still fit an int32; the model mirrors the wraps
+        lo2, hi2 = TMAX, 2 ** 32 - 4 * R - 8
+        return rnd.pick([lo2 + rnd.randint(0, 50), hi2 - rnd.randint(0, 50), rnd.randint(lo2, hi2), 2400000000 + rnd.randint(0, 10 ** 8)])
     r = rnd.random()
     if r < 0.5:
         return min(max(1600000000 + rnd.randint(0, 200000000), lo), hi)
